@@ -416,7 +416,11 @@ def _workload(tier, rng, shard, nshards):
         kind = rng.choice("IIP")
         ents = jitter_tier(rng, refs, D, kind, dyadic)
         t = make_tier(kind, "t", ents, 0.0, 6.0 + 20 * D)
-        call(t.dejitter, ref, D)
+        if D == 1e-3 and rng.random() < 0.5:
+            REC.cls("C14:dejitter:default-maxDifference")
+            call(t.dejitter, ref)  # the documented default is 0.001
+        else:
+            call(t.dejitter, ref, D)
         if k % 40 == 0:
             call(t.dejitter, make_tier(rng.choice("IP"), "noref", [], 0.0, 6.0), D)
         if k % 3 == 0 and len(ref.entries) >= 2:
@@ -430,7 +434,7 @@ def _workload(tier, rng, shard, nshards):
                     call(ref.insertEntry, (extra, extra + D * 2, "n") if ref.tierType == "IntervalTier" else (extra, "n"), "replace", "silence")
             call(t.dejitter, ref, D)
             refs = sorted({v for e in ref.entries for v in e[:-1]}) or refs
-        if k % 4 == 0:
+        if k % 4 in (0, 3):  # (k % 4 == 0 alone would only ever align the dyadic cases)
             tg = Textgrid()
             tg.addTier(t, reportingMode="silence")
             tg.addTier(ref, 0 if rng.random() < 0.5 else None, reportingMode="silence")
@@ -451,7 +455,11 @@ def _workload(tier, rng, shard, nshards):
                     edge = refs[-1] + f * D
                     v = make_tier("I", "v", [(edge, edge + 0.5, "v")], edge, 6.0 + 20 * D) if rng.random() < 0.6 else make_tier("P", "v", [(edge, "v")], edge, 6.0 + 20 * D)
                 tg.addTier(v, reportingMode="silence")
-            call(praatio_scripts.alignBoundariesAcrossTiers, tg, "ref", D)
+            if D == 5e-3 and rng.random() < 0.6:
+                REC.cls("C14:align:default-maxDifference")
+                call(praatio_scripts.alignBoundariesAcrossTiers, tg, "ref")  # the documented default is 0.005
+            else:
+                call(praatio_scripts.alignBoundariesAcrossTiers, tg, "ref", D)
     m = (5000 if tier == "quick" else 100000) // nshards
     for k in range(m):
         _, src = gen.rand_time_source(rng)
